@@ -36,7 +36,7 @@ Local Open Scope nat_scope.
 
 Inductive ostate := Live | Releasing | Pooled | Dead.
 
-Definition ref := option (nat * bool).   (* pointer, REF_BIT_ISREFCOUNTING *)
+Notation ref := (option (nat * bool)).   (* pointer, REF_BIT_ISREFCOUNTING *)
 
 Record obj := mkObj {
   o_cnt : nat;                     (* RefCountable::_refCount *)
